@@ -51,6 +51,19 @@ var reviewedND = map[string][2]string{
 	"cache:storage/account.AccountDB.accountObjects":                  {"state-local", "per-AccountDB object cache: part of the state object being executed on, not shared between states"},
 	"cache:storage/account.storageDB.codeCache":                       {"content-addressed", "contract code keyed by its hash: a hit and a miss return the same bytes"},
 	"cache:storage/account.storageDB.codeSizeCache":                   {"content-addressed", "code size keyed by code hash"},
+	"shared-object:service.MinerManagerImpl":                          {"stateless-service", "façade over the AccountDB passed in; its methods called from the cone write none of its fields (re-checked)"},
+	"shared-object:service.RefundManagerImpl":                         {"stateless-service", "façade over the AccountDB passed in"},
+	"shared-object:service.RewardCalculatorImpl":                      {"stateless-service", "pure calculation over the block and the AccountDB passed in"},
+	"shared-object:middleware.AccountDBManagerInstance":               {"chain-store", "GetLatestStateDB is only a nil-argument fallback of MinerManager getters; executors always pass the state under execution"},
+	"shared-object:core.groupChainImpl":                               {"chain-store", "group lookups, reviewed call by call in storeReads (R1.1s)"},
+	"shared-object:core.blockChainImpl":                               {"chain-store", "header lookup below the fork window, reviewed in storeReads (R1.1s)"},
+	"shared-object:core.SyncProcessor":                                {"chain-store", "fork-aware group lookup (sub-chain reward), reviewed in storeReads (R1.1s)"},
+	"shared-object:bls12381.x":                                        {"immutable-value", "curve parameter, read with Bit/BitLen only"},
+	"shared-object:bn256.curveLattice":                                {"stateless-service", "lattice constants for GLV decomposition; Multi allocates its result"},
+	"shared-object:executor.ErrIntrinsicGas":                          {"immutable-value", "error value, Error() only"},
+	"shared-object:executor.ten":                                      {"immutable-value", "big.Int constant, Cmp only"},
+	"shared-object:vm.ErrNonceTooHigh":                                {"immutable-value", "error value, Error() only"},
+	"shared-object:vm.ErrNonceTooLow":                                 {"immutable-value", "error value, Error() only"},
 	"clock:(*core.VMExecutor).Execute#0":                              {"casting-only", "start time of block casting"},
 	"clock:(*core.VMExecutor).Execute#1":                              {"casting-only", "casting time-out (the proposer's own packing limit; verifiers re-execute the packed list)"},
 	"clock:(*core.VMExecutor).Execute#2":                              {"log-only", "elapsed time for the performance log"},
@@ -90,6 +103,7 @@ func c01Purity(c *eng.Ctx, r *eng.Report, cone *eng.Cone) {
 	r.Min(rule, 16)
 	nFn := 0
 	seen := map[string]bool{}
+	shared := map[string][]eng.NDHit{}
 	for _, fn := range cone.Sorted() {
 		if !eng.InMod(fn) || fn.Blocks == nil {
 			continue
@@ -100,6 +114,10 @@ func c01Purity(c *eng.Ctx, r *eng.Report, cone *eng.Cone) {
 		}
 		for _, h := range eng.ScanNondeterminism(fn) {
 			key := fmt.Sprintf("%s:%s#%d", h.Kind, eng.FuncName(fn), h.Seq)
+			if h.Kind == "shared-object" {
+				shared[h.Recv] = append(shared[h.Recv], h)
+				continue
+			}
 			if h.Kind == "cache" {
 				// keyed by the cache object (struct field), not by call site
 				key = "cache:" + h.Recv
@@ -129,10 +147,99 @@ func c01Purity(c *eng.Ctx, r *eng.Report, cone *eng.Cone) {
 	if nFn < 600 {
 		r.Fail(rule, "cone-size", "", fmt.Sprintf("execution cone has only %d functions (≈1,090 expected): the call graph lost sight of the executors", nFn))
 	}
+	c01Shared(c, r, cone, shared, seen)
 	for k := range reviewedND {
 		if !seen[k] {
 			r.Info(rule, "stale:"+k, "", "reviewed entry matches nothing in the current tree")
 		}
+	}
+}
+
+// readOnlyMethods: methods that do not modify their receiver (math/big, error values).
+var readOnlyMethods = map[string]bool{"Cmp": true, "CmpAbs": true, "Bit": true, "BitLen": true, "Sign": true, "Error": true, "IsUint64": true, "IsInt64": true,
+	"Uint64": true, "Int64": true, "Bytes": true, "String": true, "Text": true, "Bits": true, "TrailingZeroBits": true, "ProbablyPrime": false}
+
+// c01Shared decides the objects held in package-level variables that the
+// execution cone calls methods on — one obligation per object.
+func c01Shared(c *eng.Ctx, r *eng.Report, cone *eng.Cone, shared map[string][]eng.NDHit, seen map[string]bool) {
+	const rule = "R1.1"
+	var names []string
+	for g := range shared {
+		names = append(names, g)
+	}
+	sort.Strings(names)
+	for _, g := range names {
+		hits := shared[g]
+		key := "shared-object:" + strings.TrimPrefix(g, "global:")
+		seen[key] = true
+		first := hits[0]
+		rv, ok := reviewedND[key]
+		if !ok {
+			r.Fail(rule, key, c.Pos(first.Pos), first.Detail+" inside the execution cone ("+cone.PathTo(first.Fn)+"): the object is shared by every state and goroutine of the process and is not in the reviewed table; if the call changes it, what an execution computes depends on what else ran in this process")
+			continue
+		}
+		msg := ""
+		for _, h := range hits {
+			call := h.Instr.(*ssa.Call)
+			switch rv[0] {
+			case "immutable-value":
+				m := ""
+				if call.Call.IsInvoke() {
+					m = call.Call.Method.Name()
+				} else if f := call.Call.StaticCallee(); f != nil {
+					m = f.Name()
+				}
+				if !readOnlyMethods[m] {
+					msg = "method " + m + " is not a read-only accessor (" + c.Pos(h.Pos) + ")"
+				}
+			case "stateless-service", "chain-store":
+				f := call.Call.StaticCallee()
+				if f == nil || !eng.InMod(f) || len(f.Params) == 0 {
+					msg = "call " + h.Detail + " cannot be resolved to a module method (" + c.Pos(h.Pos) + ")"
+					break
+				}
+				// the method must not store into its own receiver
+				for _, b := range f.Blocks {
+					for _, in := range b.Instrs {
+						var addr ssa.Value
+						switch x := in.(type) {
+						case *ssa.Store:
+							addr = x.Addr
+						case *ssa.MapUpdate:
+							addr = x.Map
+						default:
+							continue
+						}
+						root := addr
+						for i := 0; i < 6; i++ {
+							switch y := root.(type) {
+							case *ssa.FieldAddr:
+								root = y.X
+								continue
+							case *ssa.IndexAddr:
+								root = y.X
+								continue
+							case *ssa.UnOp:
+								root = y.X
+								continue
+							}
+							break
+						}
+						if root == ssa.Value(f.Params[0]) {
+							if rv[0] == "chain-store" {
+								continue // chain objects are governed by R1.1s (who may read) and C05 (who may write)
+							}
+							msg = eng.FuncName(f) + " writes a field of the shared object (" + c.Pos(in.Pos()) + ")"
+						}
+					}
+				}
+			}
+		}
+		if msg != "" {
+			r.Fail(rule, key, c.Pos(first.Pos), "reviewed as "+rv[0]+" but "+msg+": the object is shared by the whole process")
+			continue
+		}
+		r.Pass(rule, key, c.Pos(first.Pos), fmt.Sprintf("%s: %s (%d call sites in the cone)", rv[0], rv[1], len(hits)))
 	}
 }
 
@@ -186,6 +293,36 @@ func classHolds(c *eng.Ctx, h eng.NDHit, class string) string {
 		case "log-only":
 			if bad := flowsOutsideLog(call); bad != "" {
 				return "clock value flows into " + bad
+			}
+		}
+	case "cache":
+		if class == "content-addressed" {
+			// every keyed access to this cache object, anywhere in the module, uses the content hash as key
+			for _, fn := range c.ModFuncs() {
+				for _, h2 := range eng.ScanNondeterminism(fn) {
+					if h2.Kind != "cache" || h2.Recv != h.Recv {
+						continue
+					}
+					call := h2.Instr.(*ssa.Call)
+					m := ""
+					if f := call.Call.StaticCallee(); f != nil {
+						m = f.Name()
+					}
+					switch m {
+					case "Get", "Add", "Set", "Has", "HasGet", "Contains", "Peek", "Remove", "Del", "ContainsOrAdd", "PeekOrAdd":
+						// the key is the first non-nil argument after the receiver (fastcache.Get takes a destination buffer first)
+						var keyArg ssa.Value
+						for _, a := range call.Call.Args[1:] {
+							if !eng.IsNilConst(a) {
+								keyArg = a
+								break
+							}
+						}
+						if keyArg == nil || !strings.Contains(strings.ToLower(eng.Desc(keyArg)), "codehash") {
+							return eng.FuncName(fn) + " keys the cache by " + eng.Desc(keyArg) + " (" + c.Pos(call.Pos()) + "), which is not the content hash: a hit may return what another state stored under the same key"
+						}
+					}
+				}
 			}
 		}
 	case "global-store":
